@@ -675,6 +675,63 @@ def h_slice_count(n0: int, n1: int, n2: int, si: int) -> bool:
     return bad == 0
 
 
+def h_slice_state(n0: int, n1: int, n2: int, si: int, stats_first: bool, tzname: int) -> bool:
+    """
+    pre: 0 <= si < 9 and 0 <= n0 < 1000 and 0 <= n1 < 1000 and 0 <= n2 < 1000 and 0 <= tzname < 2
+    post: __return__
+    """
+    # what a sliced handle carries over from its parent: the read options that determine dtypes (time zones, column
+    # index dtype, pandas_nulls) are the parent's; anything derived from the row groups (statistics) is its own - also
+    # when the parent's were already computed and cached
+    rows = [n0, n1, n2]
+    pf = _real_handle(rows)
+    pf.tz = {"t": ["UTC", "Europe/Paris"][tzname]}
+    pf._columns_dtype = "object"
+    if stats_first:
+        full = pf.statistics
+        if full["null_count"]["a"] != [0, 0, 0]:
+            return False
+    item = SLICES[si]
+    sub = pf[item]
+    k = len(rows[item]) if isinstance(item, slice) else 1
+    st = sub.statistics
+    return (sub.tz == pf.tz and sub._columns_dtype == pf._columns_dtype and sub.pandas_nulls == pf.pandas_nulls and
+            st["null_count"]["a"] == [0] * k and st["min"]["a"] == [None] * k)
+
+
+def replay_h_slice_state(n0, n1, n2, si, stats_first, tzname):
+    import shutil, tempfile
+    import pandas as pd
+    import fastparquet
+    d = tempfile.mkdtemp(prefix="c06-")
+    try:
+        fn = os.path.join(d, "t.parq")
+        tz = ["UTC", "Europe/Paris"][tzname]
+        df = pd.DataFrame({"a": [1, 2, 3, 4, 5, 6],
+                           "t": pd.date_range("2020-01-01", periods=6, freq="h", tz=tz)})
+        fastparquet.write(fn, df, row_group_offsets=[0, 2, 4], stats=True)
+        pf = fastparquet.ParquetFile(fn)
+        if stats_first:
+            pf.statistics
+        item = SLICES[si]
+        sub = pf[item]
+        idx = list(range(3))[item] if isinstance(item, slice) else [list(range(3))[item]]
+        out = sub.to_pandas()
+        want = pd.concat([df.iloc[2 * i:2 * i + 2] for i in idx]) if idx else df.iloc[0:0]
+        if len(out) and str(out["t"].dtype) != str(df["t"].dtype):
+            return True, "pf[%r] reads the tz-aware column as %s (parent: %s)" % (item, out["t"].dtype, df["t"].dtype)
+        if list(out["a"]) != list(want["a"]):
+            return True, "pf[%r] returns rows %r" % (item, list(out["a"]))
+        st = sub.statistics
+        mins = [int(want["a"].iloc[2 * j]) for j in range(len(idx))]
+        if [int(x) for x in st["min"]["a"]] != mins:
+            return True, "pf[%r].statistics reports min(a) = %r for its %d row group(s), which hold minima %r" % (
+                item, st["min"]["a"], len(idx), mins)
+        return False, "slice carries the parent's options and its own statistics"
+    finally:
+        shutil.rmtree(d, ignore_errors=True)
+
+
 def replay_h_slice_count(n0, n1, n2, si):
     import shutil
     import fastparquet
